@@ -33,6 +33,7 @@ mod vals;
 mod wal;
 mod join;
 mod epo;
+use epo::graph; // shim: `crate::graph::lpg` for the #[path]-included epoch_store.rs (stream epo)
 mod par;
 mod jo;
 mod conc2;
